@@ -1,5 +1,8 @@
 """C09 - structural updates change the hierarchy exactly as specified and
 nothing else.  Explorer B: BFS over operation histories."""
+import copy
+import itertools
+
 from vivarium.core.process import Process
 
 from vmc import framework as fw
@@ -106,9 +109,158 @@ def snapshot(engine):
     return values, ids, procs, topo
 
 
+# ----------------------------------------------------------------------
+# ONE process whose two ports are wired to the same store returns a
+# structural (or ordinary) update through each port: the engine merges the
+# two into one update for that store, and all of it is carried out
+
+TWO_PORT_MENU = {
+    'del-a': {'_delete': ['a']},
+    'del-b': {'_delete': ['b']},
+    'add-x': {'_add': [{'key': 'x', 'state': {'v': 7}}]},
+    'add-y': {'_add': [{'key': 'y', 'state': {'v': 8}}]},
+    'set-b': {'b': {'v': 50}},
+    'move-c': {'_move': [{'source': ('c',), 'target': 'away'}]},
+    'move-a': {'_move': [{'source': ('a',), 'target': 'away'}]},
+}
+
+
+def _two_port_ref(names):
+    kids = {'a': {'v': 1}, 'b': {'v': 2}, 'c': {'v': 3}}
+    away = {}
+    for n in names:
+        u = TWO_PORT_MENU[n]
+        for spec in u.get('_add', []):
+            kids[spec['key']] = dict(spec['state'])
+    for n in names:
+        for mv in TWO_PORT_MENU[n].get('_move', []):
+            away[mv['source'][0]] = kids.pop(mv['source'][0])
+    for n in names:
+        u = TWO_PORT_MENU[n]
+        for k, v in u.items():
+            if not k.startswith('_') and k in kids:
+                kids[k]['v'] += v['v']       # (accumulate is the default)
+    for n in names:
+        for k in TWO_PORT_MENU[n].get('_delete', []):
+            kids.pop(k, None)
+    return {'kids': kids, 'away': away}
+
+
+def run_two_ports(job, acc):
+    from vivarium.core.engine import Engine
+    _, n1, n2, issuer = job
+    case = {'family': 'two-ports', 'job': job}
+    acc.case(key=job, outcome='two-ports')
+    glob = {'*': {'v': {'_default': 0, '_emit': True}}}
+    spec = {'pid': 'op', 'log_states': False,
+            'schema': {'k1': copy.deepcopy(glob), 'k2': copy.deepcopy(glob),
+                       'away': copy.deepcopy(glob)},
+            'update': {'$n': {0: {'k1': copy.deepcopy(TWO_PORT_MENU[n1]),
+                                  'k2': copy.deepcopy(TWO_PORT_MENU[n2])}},
+                       '$else': {}}}
+    topo = {'op': {'k1': ('kids',), 'k2': ('kids',), 'away': ('away',)},
+            'tick': {'t': ('clock',)}}
+    tick = probes.Probe({'pid': 'tick', 'ts': 1, 'log_states': False,
+                         'schema': {'t': {'n': {'_default': 0}}},
+                         'update': {'t': {'n': 1}}})
+    kw = {'processes': {'tick': tick}}
+    if issuer == 'step':
+        kw['steps'] = {'op': probes.ProbeStep(spec)}
+        kw['flow'] = {'op': []}
+    else:
+        kw['processes']['op'] = probes.Probe(dict(spec, ts=1))
+    try:
+        eng = Engine(topology=topo, emitter={'type': 'null'},
+                     display_info=False, initial_state={
+                         'kids': {'a': {'v': 1}, 'b': {'v': 2},
+                                  'c': {'v': 3}}}, **kw)
+        eng.update(2)
+        tree = probes.pure(eng.state.get_value())
+        got = {'kids': tree.get('kids', {}), 'away': tree.get('away', {})}
+    except Exception as e:  # noqa
+        acc.violate(fw.violation(
+            'C09.crash', f'two-ports:{type(e).__name__}',
+            f'one process returns {TWO_PORT_MENU[n1]} and '
+            f'{TWO_PORT_MENU[n2]} through two ports wired to one store '
+            f'(issued by a {issuer}): {e!r}', case))
+        return
+    want = _two_port_ref((n1, n2))
+    if got != want:
+        acc.violate(fw.violation(
+            'C09.tree', 'two-ports-one-store',
+            f'one process returns {TWO_PORT_MENU[n1]} and '
+            f'{TWO_PORT_MENU[n2]} through two ports wired to one store '
+            f'(issued by a {issuer}): hierarchy {got}, expected {want}',
+            case))
+
+
+def run_nested_add(job, acc):
+    """_add of a child whose state names children of a glob store NESTED
+    in the declared sub-schema: every variable the state does not give
+    holds its declared default, at every level."""
+    from vivarium.core.engine import Engine
+    _, cells, issuer = job
+    case = {'family': 'nested-add', 'job': job}
+    acc.case(key=job, outcome='nested-add')
+    schema = {'k': {'*': {'top': {'_default': 1, '_emit': True},
+                          'cells': {'*': {'m': {'_default': 4},
+                                          'n': {'_default': 9}}}}}}
+    given = {c: {'m': 5 + i} for i, c in enumerate(cells)}
+    spec = {'pid': 'op', 'log_states': False, 'schema': schema,
+            'update': {'$n': {0: {'k': {'_add': [{
+                'key': 'col2', 'state': {'cells': copy.deepcopy(given)}}]}}},
+                '$else': {}}}
+    tick = probes.Probe({'pid': 'tick', 'ts': 1, 'log_states': False,
+                         'schema': {'t': {'n': {'_default': 0}}},
+                         'update': {'t': {'n': 1}}})
+    kw = {'processes': {'tick': tick}}
+    if issuer == 'step':
+        kw['steps'] = {'op': probes.ProbeStep(spec)}
+        kw['flow'] = {'op': []}
+    else:
+        kw['processes']['op'] = probes.Probe(dict(spec, ts=1))
+    try:
+        eng = Engine(topology={'op': {'k': ('kids',)},
+                               'tick': {'t': ('clock',)}},
+                     emitter={'type': 'null'}, display_info=False,
+                     initial_state={'kids': {'col1': {'cells': {
+                         'c0': {'m': 1}}}}}, **kw)
+        eng.update(2)
+        got = probes.pure(eng.state.get_value()).get('kids')
+    except Exception as e:  # noqa
+        acc.violate(fw.violation(
+            'C09.crash', f'nested-add:{type(e).__name__}',
+            f'{case}: {e!r}', case))
+        return
+    want = {'col1': {'top': 1, 'cells': {'c0': {'m': 1, 'n': 9}}},
+            'col2': {'top': 1, 'cells': {c: {'m': v['m'], 'n': 9}
+                                         for c, v in given.items()}}}
+    if got != want:
+        acc.violate(fw.violation(
+            'C09.tree', 'added-child-misses-nested-defaults',
+            f'_add of col2 with the state {{cells: {given}}} (issued by a '
+            f'{issuer}): hierarchy {got}, expected {want}', case))
+
+
+def two_port_jobs():
+    out = []
+    for n1, n2 in itertools.permutations(TWO_PORT_MENU, 2):
+        if {n1, n2} in ({'del-b', 'set-b'}, {'move-a', 'del-a'}):
+            continue       # an update for a child the other port removes
+        for issuer in ('process', 'step'):
+            out.append(('two-ports', n1, n2, issuer))
+    return out
+
+
 def run_history(job, acc):
     if job[0] == 'agents':
         agents.judge(job[1:], acc, 'C09')
+        return
+    if job[0] == 'two-ports':
+        run_two_ports(job, acc)
+        return
+    if job[0] == 'nested-add':
+        run_nested_add(job, acc)
         return
     init_i, history, issuer, kind, expect_reject = job
     init = INITS[init_i]
@@ -276,6 +428,10 @@ def jobs(ctx):
     # operations issued from inside the compartments (vmc.agents)
     out += [('agents',) + j for j in agents.jobs(
         2 if ctx.quick else 3, lite=True)]
+    out += two_port_jobs()
+    out += [('nested-add', cells, issuer)
+            for cells in ((), ('c1',), ('c1', 'c2'))
+            for issuer in ('process', 'step')]
     return out
 
 
@@ -307,7 +463,11 @@ def replay(case):
     def tup(x):
         return tuple(tup(y) for y in x) if isinstance(x, (list, tuple)) \
             else x
-    if case.get('family') == 'agents':
+    if case.get('family') == 'two-ports':
+        run_two_ports(tup(case['job']), acc)
+    elif case.get('family') == 'nested-add':
+        run_nested_add(tup(case['job']), acc)
+    elif case.get('family') == 'agents':
         agents.judge(tup(case['job']), acc, 'C09')
     else:
         run_history((case['init'], tup(case['history']), case['issuer'],
@@ -317,3 +477,9 @@ def replay(case):
 
 RULE += (
     ' Rejection also for ONE _add list that names the same new key twice. Step-issued worlds hold a census step that depends on the operator step: it must be shown the children as they are after the operation, in the same phase.')
+
+RULE += (
+    ' Two-ports family: ONE process (or step) whose two ports are wired to the same store returns through each port one of {_delete a, _delete b, _add x, _add y, _move c, _move a, a value update} - every ordered pair: both are carried out.')
+
+RULE += (
+    ' Nested-add family: _add of a child whose state names 0-2 children of a glob store nested in the sub-schema, giving one of their two variables: the other holds its declared default.')
